@@ -1,4 +1,7 @@
 import GraphSlam.Props.C03.Accumulate
 import GraphSlam.Props.C03.EdgeSum
+import GraphSlam.Props.C03.Invariants
+import GraphSlam.Props.C03.Fill
+import GraphSlam.Props.C03.Assembled
 
 /-! C03 — umbrella. -/
